@@ -1,4 +1,4 @@
-import CrabProofs.Lemmas.WtoCheckSound
+import CrabProofs.Lemmas.WtoBuild
 
 /-!
 # C07 — weak topological orderings are well-formed for every graph
@@ -12,6 +12,12 @@ Specification: `CrabProofs/Lemmas/WtoSpec.lean` (`Crab.Wto.WtoWF g e w nest`):
   (c) `nest v` = heads of the cycles strictly enclosing `v`, outermost first; undefined outside `w`.
 `checkWto` (`CrabModel/Graph/WtoCheck.lean`) is the decision procedure the driver evaluates on the
 ordering and nesting table printed by the real implementation, on every line.
+`C07.build_wf` is the property itself for the model of the algorithm: for EVERY finite graph
+(nodes `0..n-1`, any edges, self loops, irreducible loops, unreachable parts), every entry and every
+successor order, the iterative Bourdoncle construction terminates within `fuel g`, never pops an
+empty stack (no CRAB_ERROR) and returns a well-formed ordering with the right nesting table.  The
+proof (CrabProofs/Lemmas/WtoInv*.lean, WtoStep*.lean, WtoTotal*.lean, WtoBuild.lean) is a Tarjan
+style loop invariant over the explicit DFS stack plus a termination measure.
 -/
 open Crab Crab.Wto
 
@@ -49,6 +55,26 @@ theorem C07.nesting_wf (g : Graph) (e : Nat) (w : List WtoC) (nest : Nat → Opt
   { h with
     nest_some := fun v hs he => C07.nesting_spec w h.nodup v hs he
     nest_none := fun v hv => (C07.nesting_none w v).2 hv }
+
+/-- the model of `wto(G g, entry)` terminates within `fuel g`, without CRAB_ERROR -/
+theorem C07.build_done (g : Graph) (hg : g.WF) (e : Nat) (he : e < g.n) :
+    ∃ w, buildOut g e = .done w := by
+  obtain ⟨w, st, hrun, _, _⟩ := build_total g hg e he
+  exact ⟨w, by simp [buildOut, hrun]⟩
+
+/-- C07 for the model of the algorithm: the ordering built for any graph, from any entry, with
+    any successor order, is well-formed, and its nesting table lists the enclosing heads -/
+theorem C07.build_wf (g : Graph) (hg : g.WF) (e : Nat) (he : e < g.n) :
+    WtoWF g e (build g e) (nesting (build g e)) := by
+  obtain ⟨w, st, hrun, hP, hmem⟩ := build_total g hg e he
+  have : build g e = w := by simp [build, buildOut, hrun]
+  rw [this]
+  exact placed_top_wf g e hP hmem
+
+/-- hence the checker accepts the model's output on every graph (what the driver observes) -/
+theorem C07.build_checkWto (g : Graph) (hg : g.WF) (e : Nat) (he : e < g.n) :
+    checkWto g e (build g e) (nestingTable (build g e)) = true :=
+  checkWto_complete' hg he (C07.build_wf g hg e he)
 
 /-- non-vacuity: an irreducible graph (cycle 1-2 entered at 1 and at 2, self loop on 3, node 4
     unreachable); the model's ordering is `0 (1 2 (3))`, it passes the checker, and a wrong
